@@ -107,6 +107,66 @@ def run_resource_reset_rule(idx: Index, res: Result, rule: str = "MUSTCALL") -> 
     res.floor("settings stores in _run_resource", nset, 5)
 
 
+ELEMENT_REGISTRIES = ("stocks", "flows", "biflows", "constants", "converters")
+
+
+def registry_sweeps_rule(idx: Index, res: Result, rule: str) -> int:
+    """ALLKINDS: a sweep over "all elements of the model" written as a literal of the model's registries
+    (`for elements in (self.stocks, self.flows, ...)`) names all five - stocks, flows, biflows, constants, converters.  A sweep that
+    resets or invalidates something per element and leaves one kind out keeps that kind's old values (a second cache in front of
+    the memo that is not dropped for biflows).  Returns the number of such literals."""
+    n = 0
+    for pre in ("BPTK_Py/modeling/", "BPTK_Py/sddsl/", "BPTK_Py/scenariomanager/", "BPTK_Py/sdsimulation/", "BPTK_Py/scenariorunners/"):
+        for fi in idx.all_funcs(pre):
+            for lit in [x for x in walk_no_nested(fi.node) if isinstance(x, (ast.Tuple, ast.List)) and isinstance(getattr(x, "ctx", None), ast.Load)]:
+                regs = [e.attr for e in lit.elts if isinstance(e, ast.Attribute) and e.attr in ELEMENT_REGISTRIES]
+                if len(regs) < 3 or len(regs) != len(lit.elts):
+                    continue
+                n += 1
+                missing = [r for r in ELEMENT_REGISTRIES if r not in regs]
+                res.check(rule, "%s: sweep over the element registries names all five kinds" % fi.qual, not missing, fi.loc(lit), fi.qual, src(lit)[:100],
+                          "%s walks %s as 'all elements' - %s %s missing: what the sweep resets per element keeps its old value for that kind"
+                          % (fi.qual, src(lit)[:80], ", ".join(missing), "is" if len(missing) == 1 else "are"),
+                          key="%s/%s/registries-without-%s" % (rule, fi.qual, "-".join(missing)))
+    return n
+
+
+def second_cache_rule(idx: Index, res: Result, rule: str) -> int:
+    """FRONT: what Element.__call__ answers is what Model.evaluate_equation answers *now*.  A table the element keeps in front of that
+    (values by raw time) is a second memo: it is accepted only when every method of Model / SimulationScenario that empties the memo
+    (reset_cache) also reaches a reset of that table for every element kind (ALLKINDS) - otherwise element(t) reports a value the
+    model no longer has.  Returns the number of such tables."""
+    el = idx.cls("BPTK_Py/sddsl/element.py", "Element")
+    calls = el.methods.get("__call__")
+    if not calls:
+        raise AnalysisError("anchor vanished: Element.__call__")
+    fi = calls[-1]
+    tables = set()
+    for r in [x for x in ast.walk(fi.node) if isinstance(x, ast.Return) and x.value is not None]:
+        for sub in [x for x in ast.walk(r.value) if isinstance(x, ast.Subscript) and isinstance(x.value, ast.Attribute) and dotted(x.value.value) == "self"]:
+            tables.add(sub.value.attr)
+    for a in [x for x in ast.walk(fi.node) if isinstance(x, ast.Assign)]:
+        for t in a.targets:
+            if isinstance(t, ast.Subscript) and isinstance(t.value, ast.Attribute) and dotted(t.value.value) == "self":
+                tables.add(t.value.attr)
+    for tb in sorted(tables):
+        resets = []
+        for rel, qual in ((MODEL, "Model.reset_cache"), (SCEN, "SimulationScenario.reset_cache")):
+            f2 = idx.func(rel, qual)
+            # through the helpers the reset calls (looked through by the view) the table must be re-initialised for every element
+            hit = [a for a in ast.walk(f2.node) if isinstance(a, ast.Assign) and any(isinstance(t, ast.Attribute) and t.attr == tb for t in a.targets)]
+            # ... or hands the job to a method of Model that does (called directly, or looked up by name with getattr)
+            droppers = {d.name for d in idx.cls(MODEL, "Model").node.body if isinstance(d, ast.FunctionDef)
+                        and any(isinstance(a, ast.Assign) and any(isinstance(t, ast.Attribute) and t.attr == tb for t in a.targets) for a in ast.walk(d))}
+            hit += [x for x in ast.walk(f2.node) if (isinstance(x, ast.Attribute) and x.attr in droppers) or (isinstance(x, ast.Constant) and x.value in droppers)]
+            resets.append((f2, hit))
+        lacking = [f2.qual for f2, hit in resets if not hit]
+        res.check(rule, "the table Element.%s kept in front of the memo is dropped wherever the memo is" % tb, not lacking, fi.loc(), fi.qual, "self.%s[...]" % tb,
+                  "Element.__call__ answers from self.%s, a second cache in front of the model's memo, which %s does not drop: element(t) keeps "
+                  "reporting values the model no longer has" % (tb, ", ".join(lacking)), key="%s/Element.__call__/%s-not-dropped" % (rule, tb))
+    return len(tables)
+
+
 def clear_rules(idx: Index, res: Result) -> None:
     """CLEAR: both reset_cache bodies empty the memo of every equation, unconditionally; the scenario's reset drops the live simulation;
     bptk.reset_scenario_cache reaches it.  Shared by C08 and C07 (settings only take effect on values computed after them)."""
@@ -169,6 +229,16 @@ def clear_rules(idx: Index, res: Result) -> None:
                      if not (isinstance(a_, ast.Compare) and isinstance(a_.ops[0], (ast.Is, ast.IsNot)) and "model" in src(a_.left))
                      and not (isinstance(a_, ast.Name) and a_.id == "model") and not (isinstance(a_, ast.Attribute) and a_.attr == "model")]
             early = [r for r in walk_no_nested(fi.node) if isinstance(r, ast.Return) and seq(r) < seq(cst)]
+            # the emptying sits in a block whose exceptions are swallowed (with suppress(...): / try: ... except: pass) *after* other statements
+            # of that block: when one of them raises, the rest of the block - the emptying - is skipped silently
+            for blk in ast.walk(fi.node):
+                swallow = (isinstance(blk, ast.With) and any(isinstance(i_.context_expr, ast.Call) and call_name(i_.context_expr) == "suppress" for i_ in blk.items)) or \
+                    (isinstance(blk, ast.Try) and blk.handlers and not any(isinstance(x, ast.Raise) for h in blk.handlers for x in ast.walk(h)))
+                if swallow:
+                    pos = [i_ for i_, st_ in enumerate(blk.body) if any(x is cst for x in ast.walk(st_))]
+                    if pos and pos[0] > 0:
+                        first = blk.body[0]
+                        conds.append((ast.Name(id="no_exception_in(%s)" % norm_stmt(first)[:40], ctx=ast.Load()), True))
             # a "nothing was memoised since the last reset" shortcut is sound when the flag it reads is raised by memoize() itself - the one
             # place every memoised value passes through
             gtests = [a_ for a_, _t in conds] + [g.test for g in walk_no_nested(fi.node) if isinstance(g, ast.If) and any(r is x for r in early for b in g.body for x in ast.walk(b))]
@@ -257,6 +327,8 @@ def check_c08(idx: Index, tier: str, res: Result) -> None:
               norm_stmt(own[0]) if own else "", "recompiling an element does not clear its own memo", key="CLEAR/Element.generate_function")
 
     clear_rules(idx, res)
+    res.ob("ALLKINDS", "literal sweeps over the element registries: %d" % registry_sweeps_rule(idx, res, "ALLKINDS"), True, nontrivial=False)
+    res.ob("FRONT", "tables Element.__call__ keeps in front of the memo: %d" % second_cache_rule(idx, res, "FRONT"), True, nontrivial=False)
     res.floor("raw equation-table calls examined", through_memo_rule(idx, res), 1)
     # what a generated function string refers to is looked up when the function runs, never copied in when the string is built
     from .sddsl_templates import _shape_stock
